@@ -17,6 +17,28 @@ def scenarios(ctx):
         cfg = {"tick_ms": tick, "fallback": rng.randint(1, 40), "recovery": rng.randint(1, 40), "check": rng.choice([1, 1, 2, 5]),
                "ast": B.NETERR, "expr": B.render(B.NETERR)}
         out.append({"id": "rnd-%d" % i, "cfg": cfg, "steps": B.history(rng, 300 if quick else 900, tick, codes_ok=(200,), codes_bad=(502, 504))})
+    # directed family: the request whose completion trips the breaker was in flight for L ticks; afterwards one arrival
+    # per tick across the whole fallback window and beyond (a window measured from the wrong instant lets one through)
+    i = 0
+    for L in range(0, 7):
+        for F in (2, 3, 5, 8):
+            for R in (1, 2):
+                for tick in (100, 1000):
+                    steps = [{"op": "start", "r": 1}]
+                    if rng.random() < 0.5:
+                        steps += [{"op": "start", "r": 2}]
+                    if L:
+                        steps.append({"op": "adv", "d": L})
+                    steps.append({"op": "finish", "r": 1, "code": 502})
+                    steps.append({"op": "finish", "r": 2, "code": 502})
+                    rid = 10
+                    for _ in range(F + R + 3):
+                        steps.append({"op": "adv", "d": 1})
+                        rid += 1
+                        steps += [{"op": "start", "r": rid}, {"op": "finish", "r": rid, "code": 200}]
+                    cfg = {"tick_ms": tick, "fallback": F, "recovery": R, "check": 1, "ast": B.NETERR, "expr": B.render(B.NETERR)}
+                    out.append({"id": "window-%d" % i, "cfg": cfg, "steps": steps})
+                    i += 1
     return out
 
 
